@@ -121,14 +121,16 @@ theorem mem_rootRefs_more {more : List TRef} {t : TRef} :
     t ∈ rootRefs cfg more ↔ t ∈ rootRefs cfg [] ∨ ∃ x ∈ more, t = x.build := by
   simp only [rootRefs, List.mem_append, List.mem_map, List.append_nil, List.mem_singleton]
   constructor
-  · rintro (h | ⟨x, hx | hx, rfl⟩)
-    · exact Or.inl (Or.inl h)
-    · exact Or.inl (Or.inr ⟨x, hx, rfl⟩)
+  · rintro ((h | ⟨x, hx | hx, rfl⟩) | h)
+    · exact Or.inl (Or.inl (Or.inl h))
+    · exact Or.inl (Or.inl (Or.inr ⟨x, hx, rfl⟩))
     · exact Or.inr ⟨x, hx, rfl⟩
-  · rintro ((h | ⟨x, hx, rfl⟩) | ⟨x, hx, rfl⟩)
-    · exact Or.inl h
-    · exact Or.inr ⟨x, Or.inl hx, rfl⟩
-    · exact Or.inr ⟨x, Or.inr hx, rfl⟩
+    · exact Or.inl (Or.inr h)
+  · rintro (((h | ⟨x, hx, rfl⟩) | h) | ⟨x, hx, rfl⟩)
+    · exact Or.inl (Or.inl h)
+    · exact Or.inl (Or.inr ⟨x, Or.inl hx, rfl⟩)
+    · exact Or.inr h
+    · exact Or.inl (Or.inr ⟨x, Or.inr hx, rfl⟩)
 
 /-- the two type maps hold the same type objects -/
 theorem append_same_types {xs ys : List TRef} (hperm : ∀ x, x ∈ ys ↔ x ∈ xs) {s1 s0 s2 : St}
